@@ -2,12 +2,15 @@ package c18
 
 import (
 	"bytes"
+	"encoding/base64"
+	"encoding/hex"
 	"encoding/json"
 	"fmt"
 	"math"
 	"math/rand"
 	"os"
 	"path/filepath"
+	"strconv"
 	"time"
 
 	"github.com/evstack/ev-node/pkg/genesis"
@@ -78,6 +81,58 @@ func sameGenesis(a, b genesis.Genesis) string {
 		return fmt.Sprintf("proposer address %x != %x", a.ProposerAddress, b.ProposerAddress)
 	}
 	return ""
+}
+
+// wrongTypes: JSON values that cannot denote the member under any reading (no quoted numbers, no numbers for strings:
+// a lenient reader may accept those).
+var wrongTypes = map[string][]string{
+	"chain id":         {`{}`, `[]`, `["a"]`},
+	"initial height":   {`"x"`, `{}`, `[1]`, `true`, `-1`, `1.5`},
+	"start time":       {`"not a time"`, `{}`, `[]`, `true`},
+	"proposer address": {`"!!! not base64 !!!"`, `{}`, `true`},
+}
+
+// genesisKeys finds, by value, the top-level key of each member the validity rules speak about ("" if none or
+// several match).
+func genesisKeys(m map[string]json.RawMessage, g genesis.Genesis) map[string]string {
+	out := map[string]string{"chain id": "", "initial height": "", "start time": "", "proposer address": ""}
+	n := map[string]int{}
+	for k, raw := range m {
+		var str string
+		isStr := json.Unmarshal(raw, &str) == nil && len(raw) > 0 && raw[0] == '"'
+		var num json.Number
+		isNum := !isStr && json.Unmarshal(raw, &num) == nil
+		match := func(what string) {
+			out[what] = k
+			n[what]++
+		}
+		if isStr && str == g.ChainID {
+			match("chain id")
+		}
+		if isNum && num.String() == strconv.FormatUint(g.InitialHeight, 10) {
+			match("initial height")
+		}
+		if isStr && str != g.ChainID {
+			if t, err := time.Parse(time.RFC3339Nano, str); err == nil && t.Equal(g.GenesisDAStartTime) {
+				match("start time")
+			}
+			for _, enc := range []*base64.Encoding{base64.StdEncoding, base64.RawStdEncoding, base64.URLEncoding} {
+				if b, err := enc.DecodeString(str); err == nil && bytes.Equal(b, g.ProposerAddress) && len(b) > 0 {
+					match("proposer address")
+					break
+				}
+			}
+			if b, err := hex.DecodeString(str); err == nil && bytes.Equal(b, g.ProposerAddress) && len(b) > 0 {
+				match("proposer address")
+			}
+		}
+	}
+	for what, c := range n {
+		if c != 1 {
+			out[what] = ""
+		}
+	}
+	return out
 }
 
 func loadGenesis(path string) (g genesis.Genesis, err error, pan string) {
@@ -158,19 +213,38 @@ func genesisChecks(h *harness, rng *rand.Rand, n int) {
 		bad = g
 		bad.ProposerAddress = nil
 		saveInvalid("nil proposer address", bad)
+		// The file as a parsed map, so that nothing below depends on how Save lays the file out (indentation,
+		// trailing newline, key order) or on the key names: the four members the validity rules speak about
+		// are found by VALUE (the key whose value is this genesis' chain id / height / time / address).
 		var m map[string]json.RawMessage
-		_ = json.Unmarshal(valid, &m)
-		for key := range m {
+		if json.Unmarshal(valid, &m) != nil || len(m) == 0 {
+			r.Count("genesis_file_is_not_a_json_object:derived_cases_skipped", 1)
+			continue
+		}
+		keys := genesisKeys(m, g)
+		remarshal := func(edit func(m2 map[string]json.RawMessage)) []byte {
 			m2 := map[string]json.RawMessage{}
 			for k, v := range m {
-				if k != key {
-					m2[k] = v
-				}
+				m2[k] = v
 			}
+			edit(m2)
 			b, _ := json.Marshal(m2)
-			writeRaw("key "+key+" absent", b)
+			return b
 		}
-		// broken JSON: strict prefixes of the valid file, wrong types, junk
+		for what, key := range keys {
+			if key == "" {
+				r.Count("genesis_member_not_identified_in_file:"+what, 1)
+				continue
+			}
+			// absent: the member takes its zero value, which the validity rule for it forbids
+			writeRaw(what+" absent", remarshal(func(m2 map[string]json.RawMessage) { delete(m2, key) }))
+			writeRaw(what+" is JSON null", remarshal(func(m2 map[string]json.RawMessage) { m2[key] = json.RawMessage("null") }))
+			// a value of a JSON type that cannot denote it
+			for _, wrong := range wrongTypes[what] {
+				writeRaw(what+" of the wrong JSON type", remarshal(func(m2 map[string]json.RawMessage) { m2[key] = json.RawMessage(wrong) }))
+			}
+		}
+		// broken JSON: prefixes of the valid file that are not themselves a JSON document, junk
 		cuts := []int{0, 1, len(valid) / 2, len(valid) - 1, rng.Intn(len(valid)), rng.Intn(len(valid))}
 		if i == 0 {
 			cuts = cuts[:0]
@@ -179,10 +253,15 @@ func genesisChecks(h *harness, rng *rand.Rand, n int) {
 			}
 		}
 		for _, k := range cuts {
+			if json.Valid(valid[:k]) {
+				r.Count("genesis_truncation_is_still_a_json_document:not_judged", 1)
+				continue
+			}
 			writeRaw("broken JSON (truncated)", valid[:k])
 		}
-		writeRaw("broken JSON (junk)", []byte("{"+randomFrom(rng, "abc{}[]:,\" 123", 20)))
-		writeRaw("broken JSON (wrong type)", bytes.Replace(valid, []byte(`"initial_height": `), []byte(`"initial_height": "x`), 1))
+		if junk := []byte("{" + randomFrom(rng, "abc{}[]:,\" 123", 20)); !json.Valid(junk) {
+			writeRaw("broken JSON (junk)", junk)
+		}
 		// not a JSON document: a complete genesis object followed by further content (a second, different object, the
 		// tail of an interrupted rewrite, a stray brace, text, NUL padding): which genesis is meant is undefined
 		other := g
@@ -190,7 +269,9 @@ func genesisChecks(h *harness, rng *rand.Rand, n int) {
 		other.InitialHeight = g.InitialHeight + 7
 		ob, _ := json.Marshal(other)
 		for _, tail := range [][]byte{ob, append([]byte("\n"), ob...), valid[:len(valid)/2], []byte("}"), []byte("\n}\n"), []byte(" trailing text"), {0}, []byte("\n\x00\x00\x00"), []byte(",{}"), []byte("[]")} {
-			writeRaw("content after the genesis object", append(append([]byte{}, valid...), tail...))
+			if whole := append(append([]byte{}, valid...), tail...); !json.Valid(whole) {
+				writeRaw("content after the genesis object", whole)
+			}
 		}
 		writeRaw("JSON null", []byte("null"))
 		writeRaw("JSON array", []byte("[]"))
